@@ -23,10 +23,14 @@ or a definition of the model; they stay where later theorems use them and are no
 namespace Props.C05
 open Martian.Sched
 
-/-- `complete_not_reset`: the restart-time reset is never enabled on a job
-object whose directory says complete (only failed, queued, running-with-dead-pid
-or never-started `_queued_locally` objects are reset). Relies on the invariant
-that the job manager removes `_queued_locally` when the job starts. -/
+/-- DEFINITIONAL UNFOLDING (documentation of the guard `resetOk`, not an inductive guarantee).
+`complete_not_reset`: the restart-time reset is never enabled on a job object whose directory
+says complete (only failed, queued, running-with-dead-pid or not-yet-complete `_queued_locally`
+objects are reset).  Since `joblog` no longer removes `_queued_locally` in the model, the state
+"complete and `_queued_locally` still there" IS reachable (witness `hQ` below); the theorem then
+rests on the conjunct `dst ≠ complete` of the `restartQueuedLocal` disjunct, i.e. on the branch
+added by the repair 23063ab, and on nothing proved by induction (`hr` is only used to select the
+partial-reset mode). -/
 theorem complete_not_reset {g : List NodeInfo} {s : State} {o : Obj} (hr : Reach g s)
     (hj : jobObj (s.kind o.n) o.r = true) (hen : enabled s (.reset o) = true) :
     s.dst o ≠ some .complete := by
@@ -188,7 +192,9 @@ theorem dead_unreset_job_wedges :
   · have := h 0 0 .split (by simp) (by decide) (by decide)
     exact absurd this (by decide)
 
-/-- `restart_completes_same_completion_set` (default reset mode; formerly `restart_completes_same`):
+/-- `restart_completes_same_completion_set_partial` (default reset mode; formerly `restart_completes_same`;
+PARTIAL — exact gap: only for histories whose events are all `Ev.benign`, about six real restart
+histories in seven; sentinel states only, not output values; `SameChoices` assumed):
 take two runs of the same acyclic graph from its initial state, both fair, both without
 failure events, both with finitely many interruptions and fork-structure events, with mrp up
 and every dead job reset after the last one — say, one in which mrp is killed after arbitrary
@@ -201,8 +207,14 @@ and equal completion sets give equal output VALUES is C01's schedule-freedom (`d
 the value of every call is a function of the resolved arguments) together with the harness's
 comparison of the real top-level outputs, not a consequence of this theorem; and the premise
 `SameChoices` is assumed, not derived (the data determines the choices).  (`Ev.benign`: no
-failure event, and chunk counts are not redefined while re-attaching.) -/
-theorem restart_completes_same_completion_set {g : List NodeInfo} (hac : Acyclic g)
+failure event, and chunk counts are not redefined while re-attaching.)
+HOW LITTLE THE PROOF USES: it is `interrupted_run_finishes` for each run followed by
+`finished_outcome` applied to both finished states — every finished state reached by benign events
+has the directory state `expectedOutcome`, a function of the graph and of the choices; nothing
+relates the two runs beyond that.  The premise `Ev.benign` is evaluated by the driver on every
+replayed history (reply field `benign=`); about one real restart history in seven (chunks
+redefined at re-attach, or a fault) does not satisfy it and is outside this theorem. -/
+theorem restart_completes_same_completion_set_partial {g : List NodeInfo} (hac : Acyclic g)
     {σ : Nat → State} {es : Nat → Ev} (hrun : Run (init g) σ es)
     (hb : ∀ i, (es i).benign (σ i) = true) {K : Nat}
     (hK : ∀ i, K ≤ i → (es i).structural (σ i) = false) (hup : (σ K).phase ≠ .crashed)
@@ -257,6 +269,20 @@ example : (match replay (init g1) h1 with
     | .ok s => s.st ⟨0, 0, .split⟩ == some .complete && !enabled s (.reset ⟨0, 0, .split⟩) &&
                !enabled (apply s .refresh) (.launch ⟨0, 0, .split⟩) &&
                jobObj (s.kind 0) .split
+    | .error _ => false) = true := by decide
+
+/-- the state the repair 23063ab is about is reachable: the split job records its completion while
+its `_queued_locally` file is still there (the job manager has not removed it yet), mrp dies and
+re-attaches.  The guard as it was BEFORE the repair (`restartQueuedLocal` = "`_queued_locally`
+exists") is true of this job — it would have been reset and run again — the present guard
+refuses. -/
+def hQ : List Ev :=
+  [.fork 0 0, .nodestate 0 .running, .refresh, .launch ⟨0, 0, .split⟩,
+   .joblog ⟨0, 0, .split⟩, .jobend ⟨0, 0, .split⟩ .complete, .crash, .restart]
+
+example : (match replay (init g1) hQ with
+    | .ok s => (s.m ⟨0, 0, .split⟩).disk.queued && s.dst ⟨0, 0, .split⟩ == some .complete &&
+               !enabled s (.reset ⟨0, 0, .split⟩)
     | .error _ => false) = true := by decide
 
 /-- a queued job IS reset at restart (the reset event is not vacuously disabled) -/
